@@ -41,6 +41,13 @@ ASSUMPTIONS = [
     "is represented by feed_data chunking",
     "timer expiry exactly equal to a frame's arrival time is not generated (order of equal-time events is an "
     "event-loop detail)",
+    "asyncio.Queue: an unbounded put never suspends and put_nowait never raises - that the read queue of hsfz.py IS "
+    "unbounded is regenerated from the AST and proved (`queues_unbounded`, with a bounded-queue witness)",
+    "an ack carries nothing that ties it to one request beyond the five echoed bytes: one that arrives after the caller "
+    "gave up (connection still open) stays queued and serves the next write with the same first five bytes; after the ack "
+    "timeout the connection is closed and a late ack serves nothing (`hsfz_write_outcomes`, example below it)",
+    "the whole-execution write theorem covers continuations of gateway bytes and passing time (what can happen while the "
+    "one client task is blocked); the end of the stream while blocked is C08's subject (`hsfz_eof_wakes_ack_wait`)",
 ]
 
 SRC, DST = 0xF4, 0x10
@@ -1050,17 +1057,25 @@ def replay(ctx, case):
 MANIFEST = {
     "level_text": ("Lean 4 theorems over an executable model of the HSFZ transport that follows the code (6-byte header framing with "
                    "optional address header, reader-task dispatch, the two queue consumers with their requeue discipline, ack and caller "
-                   "timers, the loop's schedule between reader task and consumer for an arbitrary yield predicate): segmentation "
+                   "timers, the loop's schedule between reader task and consumer for an arbitrary yield predicate, the end-of-stream "
+                   "marker with the frames a read re-appends behind it): segmentation "
                    "independence for every chunking, short frames never desynchronise the stream, reads deliver exactly the ECU->tester "
                    "data payloads in arrival order for every schedule, a write completes iff a matching ack (control word 2, tester pair, "
-                   "first five request bytes) is consumed before the ack deadline, alive checks are answered by the reader task in the "
+                   "first five request bytes) is consumed before the ack deadline - per settle and (`hsfz_write_outcomes`) over whole "
+                   "executions: from any reachable idle state, over any continuation of gateway bytes and time and any schedule, the "
+                   "write ends with the first deciding item (matching ack -> completes, bare control word -> fails and closes) among "
+                   "what is queued at its start and what the stream delivers strictly before its deadline, at that item's arrival "
+                   "instant, else exactly at the deadline (caller's TimeoutError, or 'no ack' with the connection closed for good), "
+                   "else it is still blocked holding everything seen -, alive checks are answered by the reader task in the "
                    "step that parses them, an error control word closes the connection, skipped frames stay queued in arrival order. "
                    "Tied to the code by tables regenerated from hsfz.py (enum, struct formats, literals, match arms) with agreement "
                    "theorems, and by a differential run of the real HSFZTransport/HSFZConnection over in-memory streams under virtual "
                    "time: all frame sequences up to length 4 (quick) / 5 (thorough) over an 8-symbol gateway alphabet x 6 injection "
                    "positions, every single split point (incl. inside the header) for sequences up to length 2 / 3, ack timeouts "
-                   "{0.1, 1.0, 2.5 s} x arrival before/after the deadline x caller timeouts, seeded longer sequences over a 27-symbol "
-                   "alphabet with multi-splits; the property's clauses are also evaluated directly on the implementation's traces."),
+                   "{0.1, 1.0, 2.5 s} x arrival before/after the deadline x caller timeouts, two writes one after the other with "
+                   "all sequences up to length 2 in every placement into the 5 phases, acks around both kinds of deadline followed by "
+                   "the next write, bursts of 33-80 unconsumed frames with alive checks behind them, frames then end of stream then "
+                   "reads, seeded longer sequences over a 27-symbol alphabet with multi-splits and free-form conversations; the property's clauses are also evaluated directly on the implementation's traces."),
     "level_note": ("Partial: one client operation at a time (no concurrent read+write tasks); kernel TCP behaviour, real drain() "
                    "back-pressure and wall-clock latency are represented by feed_data chunking, two drain schedules and virtual time; "
                    "'immediately' for the alive check means 'in the reader-task step that parsed the frame, without waiting for the "
